@@ -70,12 +70,57 @@ def run(p: Project, tier: str) -> Result:
         if f.rule == 'C03.R2':
             r.fail('C18.R4', f.construct, f.message, f.file, f.line, f.path)
     check_counter_instant(nws, r)
+    check_counter_unit(p, nws, r)
     check_cycle_time(p, nws, r)
     check_timestamps(p, r)
     return r
 
 
 COUNTED = {'num_item_processed': 'push', 'num_item_generated': 'create', 'num_item_received': 'receive'}
+COUNTERS = ('num_item_processed', 'num_item_generated', 'num_item_received', 'num_item_discarded')
+
+
+def check_counter_unit(p, nws, r):
+    """R9: a counter starts at zero and moves in steps of exactly one: every `num_item_*` key of the statistics a node creates in its constructor is the
+    constant 0, every change of such a counter on any path is `+= 1` (a step of 0, 2 or -1 makes the counter differ from the number of items moved)."""
+    r.rule('C18.R9', 'item counters start at 0 and change by exactly +1', 8)
+    for w in nws:
+        r.ctx = ctx_of(w)
+        init = w.ci.methods.get('__init__')
+        if init is not None:
+            r.analysed_functions.add(init.key)
+            for n in walk_no_nested(init.node):
+                if isinstance(n, ast.Dict):
+                    for k, v in zip(n.keys, n.values):
+                        if isinstance(k, ast.Constant) and k.value in COUNTERS:
+                            key = f'{init.key}::counter-initial:{k.value}'
+                            if isinstance(v, ast.Constant) and v.value == 0 and not isinstance(v.value, bool):
+                                r.ok('C18.R9', key, 'starts at 0', src(init.module), n.lineno)
+                            else:
+                                r.fail('C18.R9', key, f'`{k.value}` starts at {ast.unparse(v)}, not at 0: the counter is off by that amount for the whole run',
+                                       src(init.module), v.lineno)
+        sites = {}
+        for root, ps in w.roots.items():
+            for pa in ps:
+                if pa.raises:
+                    continue
+                for e in pa.events:
+                    if e.kind != 'setitem':
+                        continue
+                    cname = next((c for c in COUNTERS if c in e.target), None)
+                    if cname is None:
+                        continue
+                    key = site(e.fi, e.node, f'counter-step:{cname}')
+                    rec = sites.setdefault(key, {'ok': True, 'e': e, 'pa': pa, 'why': ''})
+                    if e.aug != ('Add', ('const', 1)) and rec['ok']:
+                        what = f'`{e.aug[0]} {e.aug[1][1] if e.aug[1] and e.aug[1][0] == "const" else "?"}`' if e.aug else 'a plain assignment'
+                        rec.update(ok=False, pa=pa, why=f'`{cname}` is changed by {what}, not by `+= 1`: it no longer equals the number of items it counts')
+        for key, rec in sorted(sites.items()):
+            e = rec['e']
+            if rec['ok']:
+                r.ok('C18.R9', key, '+= 1', src(e.fi.module), e.line)
+            else:
+                r.fail('C18.R9', key, rec['why'], src(e.fi.module), e.line, rec['pa'].describe())
 
 
 def check_counter_instant(nws, r):
